@@ -325,3 +325,470 @@ def ofProgram (p : Qbice.Engine.Program) : Program :=
   p.map fun d => { kind := ofKind d.kind, prog := ofProg d.prog, ext := extFun d.prog }
 
 end Qbice.Core
+
+/-
+Extended core model (`Qbice.CoreFw`): ALL acyclic programs — the five kinds input, normal, external,
+FIREWALL and PROJECTION — with the engine logic of the REPAIRED design (`Model/Engine.lean` with the
+switches `f1p`, `f1q`, `f14` on; `f2`, `f16`, `f33` are on by default; cycles are out of scope:
+rank = key index).  Same representation as above: maps are functions, recursion by fuel with the
+recursive call as a parameter.  `Qbice.Core` above is the firewall-free instance of this model (it
+stays as the model of C07 / C08 and of `C02_full_statement`).
+
+New state: per node the transitive-firewall-callee set `tfc` (sorted list), per recorded callee the
+`tfc` fingerprint seen at observation time (`seen`; the fingerprint is the set itself), and a pending
+backward projection flag (`pendingBP`; with `f14` a flag without epoch).
+
+Callers (`Caller`, as in `Model/Engine.lean`).  In an acyclic program the requests form four layers,
+each defined by its own recursion on fuel with the layers below it as fixed functions:
+* `queryQ` — a *query* caller (an executor reading, or `check_callee` repairing, a dependency): fast
+  path, `repair_query` (`check_callee` with the trust rule `f1p`: a clean edge is skipped only if
+  every firewall of the callee's recorded frontier is verified in this epoch without a pending
+  backward projection; never skipped for pedantic callers and for projection callers), clean path
+  (`clean_query`: when a cleaned callee's set differs from the fingerprint seen, the set is
+  recomputed from all callees and — `f1q` — all fingerprints are refreshed), recompute
+  (`execute_query`: a firewall / projection whose value changes propagates dirtiness upward, in the
+  same epoch, and gets a pending backward projection).  Calls go to lower keys only.
+* `queryB` — the `BackwardProjectionPropagation` caller: an unverified projection is always
+  re-executed (pedantically); afterwards, if it has a pending backward projection, the projections
+  directly above it are requested the same way (`backProject`).  Calls go to higher keys only.
+* `queryF` — the `RepairFirewall` caller: `repair_transitive_firewall_callees` of the firewall
+  (lower keys, same caller), then the repair proper as a non-pedantic query caller would do it,
+  then the pending backward projection if any.
+* `queryU` — the user: `repair_transitive_firewall_callees`, then the repair proper.
+Hash-set walks (`tfc` sets, backward-projection sets) are in ascending key order.
+
+Dirty propagation is declarative (`affected`): an edge `(c, x)` is marked iff `x` is reachable from a
+changed key through recorded backward edges along a path whose nodes after the source are neither
+firewalls nor projections — at commit from the changed inputs, and from a firewall / projection at
+the moment its re-execution returns a different value.
+-/
+namespace Qbice.CoreFw
+open Qbice.Core (Prog Err Write SetRes allVals evalProg applyWorld)
+
+abbrev Key := Nat
+abbrev Val := Int
+
+inductive Kind | input | normal | external | firewall | projection
+  deriving DecidableEq, Repr
+
+structure NodeDef where
+  kind : Kind
+  /-- executor of a normal / firewall / projection key -/
+  prog : Prog
+  /-- executor of an external key: a function of the world -/
+  ext : (Key → Val) → Val := fun _ => 0
+
+abbrev Program := List NodeDef
+
+structure Node where
+  kind : Kind
+  lastVerified : Nat
+  value : Val
+  /-- recorded reads in order (first occurrence of each callee) with the observed value -/
+  deps : List (Key × Val)
+  /-- the transitive-firewall-callee fingerprint (= the set) of each callee seen at observation -/
+  seen : Key → List Key
+  /-- transitive firewall callees: sorted, duplicate-free -/
+  tfc : List Key
+  /-- a backward projection is pending (`f14`: a flag, whatever the epoch) -/
+  pendingBP : Bool
+
+inductive Caller
+  | user
+  | query (k : Key) (requireValue : Bool) (pedantic : Bool)
+  | bpp
+  | repairFirewall
+  deriving DecidableEq, Repr
+
+structure St where
+  epoch : Nat := 0
+  nodes : Key → Option Node := fun _ => none
+  dirty : Key → Key → Bool := fun _ _ => false
+  world : Key → Val := fun _ => 0
+  log : List Key := []
+
+def setNode (s : St) (k : Key) (n : Node) : St :=
+  { s with nodes := fun x => if x = k then some n else s.nodes x }
+
+def clearDirty (s : St) (c x : Key) : St :=
+  { s with dirty := fun a b => if a = c ∧ b = x then false else s.dirty a b }
+
+def clearDirtyFrom (s : St) (c : Key) : St :=
+  { s with dirty := fun a b => if a = c then false else s.dirty a b }
+
+abbrev Q := Key → St → Except Err (Val × St)
+
+def isFwPj (k : Kind) : Bool := k = .firewall || k = .projection
+
+/-- what a callee of kind `kind` with set `t` contributes to its caller's set
+    (`observe_callee_fingerprint`) -/
+def contrib (kind : Kind) (d : Key) (t : List Key) : List Key :=
+  match kind with
+  | .input | .external => []
+  | .firewall => [d]
+  | .normal | .projection => t
+
+def tfcOf (s : St) (d : Key) : List Key :=
+  match s.nodes d with
+  | some n => n.tfc
+  | none => []
+
+/-- the recorded firewall frontier of a callee, as the trust rule sees it -/
+def front (s : St) (d : Key) : List Key :=
+  match s.nodes d with
+  | some n => contrib n.kind d n.tfc
+  | none => []
+
+/-- verified in this epoch, no pending backward projection -/
+def settledFw (s : St) (f : Key) : Bool :=
+  match s.nodes f with
+  | some n => decide (n.lastVerified = s.epoch) && !n.pendingBP
+  | none => false
+
+/-- the trust rule (`f1p`) -/
+def trusted (s : St) (d : Key) : Bool := (front s d).all (settledFw s)
+
+def hasPending (s : St) (k : Key) : Bool :=
+  match s.nodes k with
+  | some n => n.pendingBP
+  | none => false
+
+/-- the callee's set differs from the fingerprint seen (never for a firewall callee) -/
+def tfcMoved (s : St) (seen : Key → List Key) (d : Key) : Bool :=
+  match s.nodes d with
+  | some n => decide (n.kind ≠ .firewall) && decide (n.tfc ≠ seen d)
+  | none => false
+
+/-- `recompute_decision_based_on_forward_edges` / `check_callee` over the recorded dependencies, in
+    order.  `skipOk` = the caller is not pedantic and the node is not a projection.  Returns
+    (recompute, a cleaned callee's set moved, the callees whose edge leaves the dirty set, state).
+    The state changes only through the requests for the callees: the cleaned edges leave the dirty
+    set when the node is published (`clean_query`). -/
+def repairDeps (q : Q) (k : Key) (skipOk : Bool) (seen : Key → List Key) :
+    List (Key × Val) → Bool → List Key → St → Except Err (Bool × Bool × List Key × St)
+  | [], nt, cl, s => .ok (false, nt, cl, s)
+  | (d, o) :: rest, nt, cl, s =>
+    if s.dirty k d = false ∧ skipOk = true ∧ trusted s d = true then repairDeps q k skipOk seen rest nt cl s
+    else
+      match q d s with
+      | .error e => .error e
+      | .ok (v, s1) =>
+        if v ≠ o then .ok (true, nt, cl, s1)
+        else
+          -- the edge leaves the dirty set only if it was dirty when the check began
+          repairDeps q k skipOk seen rest (nt || tfcMoved s1 seen d)
+            (if s.dirty k d = true then d :: cl else cl) s1
+
+def clearDirtyList (s : St) (c : Key) (xs : List Key) : St :=
+  { s with dirty := fun a b => if a = c ∧ b ∈ xs then false else s.dirty a b }
+
+/-- `clean_query`: the set recomputed from all recorded callees -/
+def recomputeTfc (s : St) : List (Key × Val) → List Key
+  | [] => []
+  | (d, _) :: rest => Qbice.Engine.unionSorted (front s d) (recomputeTfc s rest)
+
+/-- what an executor has registered so far: reads, fingerprints seen, accumulated set -/
+structure Acc where
+  deps : List (Key × Val) := []
+  seen : Key → List Key := fun _ => []
+  tfc : List Key := []
+
+/-- `register_callee` + `observe_callee_fingerprint` after the callee `d` returned `v` in state `s` -/
+def observe (s : St) (a : Acc) (d : Key) (v : Val) : Acc :=
+  { deps := if a.deps.any (fun e => e.1 == d) then a.deps else a.deps ++ [(d, v)],
+    seen := fun x => if x = d then tfcOf s d else a.seen x,
+    tfc := Qbice.Engine.unionSorted (front s d) a.tfc }
+
+/-- the members of an unordered group, queried one after the other -/
+def askMany (q : Q) : List Key → Acc → St → Except Err (List Val × Acc × St)
+  | [], a, s => .ok ([], a, s)
+  | d :: rest, a, s =>
+    match q d s with
+    | .error e => .error e
+    | .ok (v, s1) =>
+      match askMany q rest (observe s1 a d v) s1 with
+      | .error e => .error e
+      | .ok (vs, a2, s2) => .ok (v :: vs, a2, s2)
+
+/-- running an executor: every `ask` is a query for the dependency -/
+def runProg (q : Q) : Prog → Acc → St → Except Err (Val × Acc × St)
+  | .ret v, a, s => .ok (v, a, s)
+  | .ask d cont, a, s =>
+    match q d s with
+    | .error e => .error e
+    | .ok (v, s1) => runProg q (cont v) (observe s1 a d v) s1
+  | .askAll ks cont, a, s =>
+    match askMany q ks a s with
+    | .error e => .error e
+    | .ok (vs, a1, s1) => runProg q (cont vs) a1 s1
+
+/-- `set_computed`: the node is replaced, its dirty edges are gone, the invocation is logged -/
+def install (s : St) (k : Key) (n : Node) : St :=
+  let s3 := setNode (clearDirtyFrom s k) k n
+  { s3 with log := s3.log ++ [k] }
+
+/-- reachability from the changed keys through recorded backward edges, not passing through a
+    firewall or projection -/
+def affected (s : St) (changed : List Key) : Nat → Key → Bool
+  | 0, _ => false
+  | f + 1, k =>
+    changed.contains k ||
+      (match s.nodes k with
+       | some n => !isFwPj n.kind && n.deps.any (fun d => affected s changed f d.1)
+       | none => false)
+
+def hasEdge (s : St) (c x : Key) : Bool :=
+  match s.nodes c with
+  | some n => n.deps.any (fun e => e.1 == x)
+  | none => false
+
+/-- dirty propagation from the keys `changed` -/
+def markDirty (s : St) (changed : List Key) : St :=
+  { s with dirty := fun c x => s.dirty c x || (hasEdge s c x && affected s changed (x + 1) x) }
+
+/-- `execute_query` + `set_computed` -/
+def execute (q : Q) (k : Key) (d : NodeDef) (s : St) : Except Err (Val × St) :=
+  match runProg q d.prog {} s with
+  | .error e => .error e
+  | .ok (v, a, s1) =>
+    let changed : Bool := match s1.nodes k with
+      | some o => isFwPj o.kind && decide (o.value ≠ v)
+      | none => false
+    let s2 := if changed then markDirty s1 [k] else s1
+    .ok (v, install s2 k { kind := d.kind, lastVerified := s1.epoch, value := v, deps := a.deps,
+                           seen := a.seen, tfc := a.tfc, pendingBP := changed || hasPending s1 k })
+
+/-- first demand of an external key: its executor reads the world -/
+def executeExt (k : Key) (d : NodeDef) (s : St) : Val × St :=
+  let v := d.ext s.world
+  (v, install s k { kind := .external, lastVerified := s.epoch, value := v, deps := [],
+                    seen := fun _ => [], tfc := [], pendingBP := false })
+
+/-- `clean_query` -/
+def cleanNode (s : St) (n : Node) (moved : Bool) : Node :=
+  if moved then { n with lastVerified := s.epoch, tfc := recomputeTfc s n.deps, seen := tfcOf s }
+  else { n with lastVerified := s.epoch }
+
+/-- `query_for` for a query caller (`pedantic` is inherited by every request below) -/
+def queryQ (p : Program) : Nat → Bool → Q
+  | 0, _, _, _ => .error .outOfFuel
+  | fuel + 1, ped, k, s =>
+    match s.nodes k with
+    | none =>
+      match p[k]? with
+      | none => .error (.badKey k)
+      | some d =>
+        match d.kind with
+        | .input => .error (.inputNotSet k)
+        | .external => .ok (executeExt k d s)
+        | _ => execute (queryQ p fuel ped) k d s
+    | some n =>
+      if n.lastVerified = s.epoch then .ok (n.value, s)
+      else
+        match p[k]? with
+        | none => .error (.badKey k)
+        | some d =>
+          match repairDeps (queryQ p fuel ped) k (!ped && decide (n.kind ≠ .projection)) n.seen n.deps false [] s with
+          | .error e => .error e
+          | .ok (true, _, _, s1) => execute (queryQ p fuel ped) k d s1
+          | .ok (false, moved, cl, s1) =>
+            .ok (n.value, setNode (clearDirtyList s1 k cl) k (cleanNode s1 n moved))
+
+def fuelFor (p : Program) : Nat := p.length + 1
+
+/-- requests for a list of keys, one after the other (a `tfc` set, a backward-projection set) -/
+def queryEach (q : Q) : List Key → St → Except Err St
+  | [], s => .ok s
+  | c :: rest, s =>
+    match q c s with
+    | .error e => .error e
+    | .ok (_, s1) => queryEach q rest s1
+
+/-- the projections directly above `k` -/
+def projsAbove (p : Program) (s : St) (k : Key) : List Key :=
+  (List.range p.length).filter fun c =>
+    match s.nodes c with
+    | some n => decide (n.kind = .projection) && n.deps.any (fun e => e.1 == k)
+    | none => false
+
+def clearPending (s : St) (k : Key) : St :=
+  match s.nodes k with
+  | some n => setNode s k { n with pendingBP := false }
+  | none => s
+
+/-- `invoke_backward_projections` + `done_backward_projection` -/
+def backProject (qb : Q) (p : Program) (k : Key) (s : St) : Except Err St :=
+  match queryEach qb (projsAbove p s k) s with
+  | .error e => .error e
+  | .ok s1 => .ok (clearPending s1 k)
+
+/-- `query_for` for the `BackwardProjectionPropagation` caller -/
+def queryB (p : Program) : Nat → Q
+  | 0, _, _ => .error .outOfFuel
+  | fuel + 1, k, s =>
+    let r : Except Err (Val × St) :=
+      match s.nodes k with
+      | none => queryQ p (fuelFor p) true k s
+      | some n =>
+        if n.lastVerified = s.epoch then .ok (n.value, s)
+        else
+          match p[k]? with
+          | none => .error (.badKey k)
+          | some d => execute (queryQ p (fuelFor p) true) k d s
+    match r with
+    | .error e => .error e
+    | .ok (v, s1) =>
+      if hasPending s1 k then
+        match backProject (queryB p fuel) p k s1 with
+        | .error e => .error e
+        | .ok s2 => .ok (v, s2)
+      else .ok (v, s1)
+
+/-- `repair_transitive_firewall_callees` of `k` (only when `k` has a node that is not verified) -/
+def repairTfc (qf : Q) (k : Key) (s : St) : Except Err St :=
+  match s.nodes k with
+  | none => .ok s
+  | some n => if n.lastVerified = s.epoch then .ok s else queryEach qf n.tfc s
+
+/-- `query_for` for the `RepairFirewall` caller -/
+def queryF (p : Program) : Nat → Q
+  | 0, _, _ => .error .outOfFuel
+  | fuel + 1, k, s =>
+    match repairTfc (queryF p fuel) k s with
+    | .error e => .error e
+    | .ok s1 =>
+      match queryQ p (fuelFor p) false k s1 with
+      | .error e => .error e
+      | .ok (v, s2) =>
+        if hasPending s2 k then
+          match backProject (queryB p (fuelFor p)) p k s2 with
+          | .error e => .error e
+          | .ok s3 => .ok (v, s3)
+        else .ok (v, s2)
+
+/-- `query_for` for the user -/
+def queryU (p : Program) (fuel : Nat) : Q := fun k s =>
+  match repairTfc (queryF p fuel) k s with
+  | .error e => .error e
+  | .ok s1 => queryQ p fuel false k s1
+
+/-- `Engine::query_for` -/
+def query (p : Program) (fuel : Nat) (c : Caller) : Q :=
+  match c with
+  | .user => queryU p fuel
+  | .query _ _ ped => queryQ p fuel ped
+  | .bpp => queryB p fuel
+  | .repairFirewall => queryF p fuel
+
+def isExtNode (s : St) (k : Key) : Bool :=
+  match s.nodes k with
+  | some n => decide (n.kind = .external)
+  | none => false
+
+/-- the node of `k` after a refresh: an external node gets the value its executor returns now -/
+def refreshNode (p : Program) (s : St) (k : Key) : Option Node :=
+  match s.nodes k, p[k]? with
+  | some n, some d =>
+    if n.kind = .external then
+      some { n with lastVerified := s.epoch, value := d.ext s.world, deps := [] }
+    else some n
+  | o, _ => o
+
+/-- the result of re-running the executor of the external key `k` differs from the stored one -/
+def extChanged (p : Program) (s : St) (k : Key) : Bool :=
+  match s.nodes k, p[k]? with
+  | some n, some d => decide (n.kind = .external) && decide (n.value ≠ d.ext s.world)
+  | _, _ => false
+
+/-- `refresh` -/
+def refreshAll (p : Program) (s : St) (ch : List Key) : St × List Key :=
+  let exts := (List.range p.length).filter (isExtNode s)
+  ({ s with nodes := refreshNode p s, log := s.log ++ exts }, ch ++ exts.filter (extChanged p s))
+
+/-- the writes of one session: `set_input` per `set`, `refresh` -/
+def applySets (p : Program) : List Write → St → List SetRes → List Key →
+    Except Err (St × List SetRes × List Key)
+  | [], s, rs, ch => .ok (s, rs, ch)
+  | .set k v :: rest, s, rs, ch =>
+    match p[k]? with
+    | none => .error (.badKey k)
+    | some d =>
+      if d.kind ≠ .input then .error .badOp
+      else
+        let r := match s.nodes k with
+          | none => SetRes.fresh
+          | some n => if n.value ≠ v then .updated else .unchanged
+        let s' := setNode s k { kind := .input, lastVerified := s.epoch, value := v, deps := [],
+                                seen := fun _ => [], tfc := [], pendingBP := false }
+        applySets p rest s' (rs ++ [r]) (if r = .updated then ch ++ [k] else ch)
+  | .world _ _ :: rest, s, rs, ch => applySets p rest s (rs ++ [.world]) ch
+  | .refresh :: rest, s, rs, ch =>
+    let r := refreshAll p s ch
+    applySets p rest r.1 (rs ++ [.refreshed]) r.2
+
+/-- `input_session()` (epoch bump) · writes · `commit()` (dirty propagation) -/
+def session (p : Program) (ws : List Write) (s : St) : Except Err (List SetRes × St) :=
+  match applySets p ws { s with epoch := s.epoch + 1, world := applyWorld ws s.world } [] [] with
+  | .error e => .error e
+  | .ok (s1, rs, changed) => .ok (rs, markDirty s1 changed)
+
+/-- one tracked engine: keys in order through its local cache -/
+def roundAux (p : Program) (fuel : Nat) : List Key → List (Key × Val) → List Val → St → Except Err (List Val × St)
+  | [], _, out, s => .ok (out, s)
+  | k :: rest, cache, out, s =>
+    match cache.find? (fun e => e.1 == k) with
+    | some e => roundAux p fuel rest cache (out ++ [e.2]) s
+    | none =>
+      match query p fuel .user k s with
+      | .error e => .error e
+      | .ok (v, s1) => roundAux p fuel rest (cache ++ [(k, v)]) (out ++ [v]) s1
+
+def round (p : Program) (fuel : Nat) (ks : List Key) (s : St) : Except Err (List Val × St) :=
+  roundAux p fuel ks [] [] s
+
+-- ------------------------------------------------------------------ specification
+
+/-- from-scratch value of key `k` on the committed inputs and the external values `ext` -/
+def evalSpec (p : Program) (inputs : Key → Option Val) (ext : Key → Option Val) : Nat → Key → Option Val
+  | 0, _ => none
+  | f + 1, k =>
+    match p[k]? with
+    | none => none
+    | some d =>
+      match d.kind with
+      | .input => inputs k
+      | .external => ext k
+      | _ => evalProg (evalSpec p inputs ext f) d.prog
+
+/-- every key an executor can ask, whatever it reads, satisfies `P` -/
+def ProgAll (P : Key → Prop) : Prog → Prop
+  | .ret _ => True
+  | .ask d cont => P d ∧ ∀ v, ProgAll P (cont v)
+  | .askAll ks cont => (∀ d, d ∈ ks → P d) ∧ ∀ vs, ProgAll P (cont vs)
+
+def kindOf (p : Program) (k : Key) : Option Kind := (p[k]?).map (·.kind)
+
+/-- static rank = index (an executor of key `k` only asks keys `< k`); a projection reads firewall
+    and projection keys only -/
+def WF (p : Program) : Prop :=
+  ∀ (k : Key) (d : NodeDef), p[k]? = some d → d.kind ≠ .input → d.kind ≠ .external →
+    d.prog.Below k ∧
+    (d.kind = .projection →
+      ProgAll (fun x => kindOf p x = some .firewall ∨ kindOf p x = some .projection) d.prog)
+
+/-- the program has no projection node -/
+def NoProj (p : Program) : Prop := ∀ (k : Key) (d : NodeDef), p[k]? = some d → d.kind ≠ .projection
+
+-- ------------------------------------------------------------------ bridge from the full model's programs
+
+def ofKind : Qbice.Engine.Kind → Kind
+  | .input => .input
+  | .external => .external
+  | .normal => .normal
+  | .firewall => .firewall
+  | .projection => .projection
+
+def ofProgram (p : Qbice.Engine.Program) : Program :=
+  p.map fun d => { kind := ofKind d.kind, prog := Qbice.Core.ofProg d.prog, ext := Qbice.Core.extFun d.prog }
+
+end Qbice.CoreFw
